@@ -22,7 +22,7 @@ RULE = ('pairs (A, B) of build-validate-serialise workloads (element + oracle-va
         'initialised shared tables are pristine for every schedule and no private cache has to be reset.  Oracle: '
         'both threads\' results (text, or exception type + message) equal their solo results.  Non-trivial = the '
         'pre-emption point is a first-use line (executed in A\'s first run but not in a second run in the same '
-        'process); exhaustive per pair (quick tier caps k per pair and rotates the window with the seed).')
+        'process); exhaustive per panel pair in the thorough tier; the quick tier caps k per pair, the thorough tier caps k at 2500 for drawn pairs, both rotate the window with the seed.')
 ASSUMPTIONS = ['one pre-emption, line granularity, two threads - the quantifier of the property; finer-grained races '
                'are out of reach', 'a 30 s wait for thread B is treated as a hang and counted as inconclusive']
 EXHAUSTIVE = False
